@@ -367,6 +367,8 @@ class Judge:
         self.samples = {}
         self.end_seen = False
         self.harness_events = None
+        self.triaged = 0
+        self.triage_diffs = 0
 
     def viol(self, op, kind, ins, outs, detail):
         self.viol_total += 1
@@ -417,6 +419,9 @@ class Judge:
             self.konst(p[1], int(p[2], 16), int(p[3], 16))
         elif tag == 'T':
             self.touch[(int(p[1]), int(p[2]))] = self.touch.get((int(p[1]), int(p[2])), 0) + int(p[3])
+        elif tag == 'G':
+            self.triaged += int(p[1])
+            self.triage_diffs += int(p[2])
         elif tag == 'END':
             self.end_seen = True
             self.harness_events = int(p[1])
@@ -512,7 +517,7 @@ class Judge:
             'violation_keys': [{'op': k[0], 'kind': k[1], 'count': v} for k, v in self.viol_keys.items()],
             'panics': self.panics, 'touch': [[s, i, n] for (s, i), n in sorted(self.touch.items())],
             'consts': self.consts, 'distinct': len(self.distinct), 'samples': self.samples,
-            'end_seen': self.end_seen, 'harness_events': self.harness_events, 'known_hits': self.known_hits,
+            'end_seen': self.end_seen, 'harness_events': self.harness_events, 'known_hits': self.known_hits, 'triaged': self.triaged, 'triage_diffs': self.triage_diffs,
         }
 
 
